@@ -68,6 +68,22 @@ def fixed_cases(tier):
         lo, hi = M.repr_range(r)
         out.append(mk(r, [lo, lo + 1, -3, -2, 4, hi], feats=("as_str", "iter", "range", "into", "try_from", "next", "next_back"),
                       modes={"as_str": "table", "iter": "table"}))
+    # the type's own minimum spelled with separators, radix prefixes and a type suffix
+    for r in ("i8", "i16", "i32", "i64", "i128", "isize"):
+        lo, hi = M.repr_range(r)
+        if lo < I64MIN:
+            lo = I64MIN
+        a = abs(lo)
+        spell = ["-%d%s" % (a, r), "-%s_%s" % ("{:_}".format(a), r), "-0x%s_%s" % ("{:_x}".format(a), r), "-0b%s%s" % (bin(a)[2:], r), "-0o%o_%s" % (a, r)]
+        for sp in spell:
+            if r == "isize" and False:
+                continue
+            out.append(mk(r, [lo, lo + 1, 5], discs=[sp, None, "5"]))
+        out.append(mk(r, [lo, lo + 1, lo + 9, -1, 0], discs=[spell[0], None, _lit(lo + 9), "-1%s" % r, None],
+                      feats=("as_str", "iter", "range", "into", "try_from", "next", "next_back", "MIN", "MAX"), modes={"as_str": "table", "iter": "table"}))
+    # run-length matrix (runs of 63/64/65/127/128/129/255/256/257 values)
+    for spec in C.run_length_specs():
+        out.append({"spec": spec, "cfg": S.simple_config(["into", "try_from", "iter", "range", "next", "next_back", "as_str", "from_str"]), "seed": 8})
     # 8-bit size matrix (half-full, nearly full and full reprs, gapless and with holes) with table features on
     from . import C10
     for c in C10.fixed_cases("quick"):
